@@ -435,3 +435,24 @@ mod test {
         assert_eq!(next.len(), 6);
     }
 }
+
+////////////////////////////////////////////////////////////////////////////////
+
+/// Verification hooks (only compiled with `--cfg fidget_verif`)
+#[cfg(fidget_verif)]
+impl<const N: usize> VmData<N> {
+    /// Builds a `VmData` directly from its parts, without going through a
+    /// `Context` (which lets a harness use a fixed tape)
+    pub fn verif_from_parts(ssa: SsaTape, asm: RegTape, vars: VarMap) -> Self {
+        Self {
+            ssa,
+            asm,
+            vars: vars.into(),
+        }
+    }
+
+    /// Borrows the inner [`SsaTape`]
+    pub fn verif_ssa(&self) -> &SsaTape {
+        &self.ssa
+    }
+}
